@@ -236,7 +236,7 @@ class Baton:
 # ---------------------------------------------------------------------------
 # request kinds
 
-KINDS = ['plain', 'body', 'raise', 'nf', 'crash', 'json404', 'form', 'hdrs', 'mutq', 'latin', 'badmp_json']
+KINDS = ['plain', 'body', 'raise', 'nf', 'crash', 'json404', 'form', 'hdrs', 'mutq', 'latin', 'badmp_json', 'signed', 'forged', 'stat_s', 'stat_n']
 
 
 def make_app(config=None, app=None):
@@ -304,6 +304,37 @@ def make_app(config=None, app=None):
         p = rq.params
         return json.dumps([name, before, sorted(p.keys())])
 
+    @app.route('/signed/<name>')
+    def signed(name):
+        who = rq.get_cookie('sess', secret='k3y')          # a signed cookie as sent by the client (valid or forged)
+        rs.set_cookie('sess', {'user': name}, secret='k3y')
+        return json.dumps([name, repr(who)])
+
+    @app.route('/stat_s/<name>')
+    def stat_s(name):
+        rs.status = '499 Client Closed Request'
+        return name
+
+    @app.route('/stat_n/<name>')
+    def stat_n(name):
+        rs.status = 499
+        return name
+
+    @app.route('/listen/<name>')
+    def listen(name):
+        # an application observing changes of ITS OWN request object
+        def cb(request, key, value):
+            request.environ['seen-by-listener'] = name
+            request.environ['ombott.request.query'] = {'hijacked-by': name}
+        rq.on('env_changed', cb)
+        rq['X_MARK'] = name
+        return json.dumps([name, rq.environ.get('seen-by-listener')])
+
+    @app.route('/assign/<name>')
+    def assign(name):
+        rq['X_MARK'] = name
+        return json.dumps([name, rq.environ.get('seen-by-listener'), sorted(rq.query.items())])
+
     @app.route('/latin/<name>')
     def latin(name):
         rs.content_type = 'text/plain; charset=latin-1'
@@ -358,6 +389,15 @@ def environ_for(kind, name):
         env['QUERY_STRING'] = 'page=2&tag=x&tag=y'          # the same query string for every client
     elif kind == 'latin':
         env['PATH_INFO'] = '/latin/' + name
+    elif kind in ('stat_s', 'stat_n', 'listen', 'assign'):
+        env['PATH_INFO'] = '/%s/%s' % (kind, name)
+    elif kind == 'signed':
+        from ombott.common_helpers import cookie_encode
+        env['PATH_INFO'] = '/signed/' + name
+        env['HTTP_COOKIE'] = 'sess="%s"; c=%s' % (cookie_encode(('sess', {'user': 'prev-' + name}), 'k3y').decode('latin1'), name)
+    elif kind == 'forged':
+        env['PATH_INFO'] = '/signed/' + name
+        env['HTTP_COOKIE'] = 'sess="!c2lnLW9mLSVz?cGF5bG9hZC1vZi0%s"; c=%s' % (name, name)
     elif kind == 'badmp_json':
         # a multipart part without a field name; the error message quotes the offending header line
         data = ('--B\r\nContent-Disposition: form-data; x-owner-token="secret-of-%s"\r\n\r\nv\r\n--B--\r\n' % name).encode()
